@@ -510,6 +510,8 @@ def expand_fn(args, sections, unit_file, out, stats):
             got = hashlib.sha256(re.sub(r"\s+", "", src.text[s_:e_]).encode()).hexdigest()[:len(sha)]
             if got != sha:
                 raise ExtractError(f"{relpath}: pinned statement in fn {name} changed (sha {got} != {sha})")
+            # automatic rewrites (R2/R3/R4) inside the replaced text are moot
+            ed.edits = [x for x in ed.edits if not (s_ <= x[0] and x[1] <= e_)]
             ed.replace(s_, e_, text.rstrip("\n"), ("rule", "R6", src.line_of(s_)))
             stats.pinned.append({"fn": label, "file": relpath, "line": src.line_of(s_), "sha": sha,
                                  "original": norm_ws(src.text[s_:e_]), "replacement": norm_ws(text)})
